@@ -51,7 +51,7 @@ Proof.
   - exists [t], t. split; reflexivity.
   - cbn [forallb] in Hr. apply andb_true_iff in Hr as [Hf Hr].
     unfold nadv, nsent in *.
-    destruct f as [|e d|]; cbn [fault_retried] in Hf; try discriminate.
+    destruct f as [|e d| |]; cbn [fault_retried] in Hf; try discriminate.
     + cbn [filter fault_advances fault_sent List.length] in *.
       destruct rest as [|t' rest']; cbn [List.length] in Hn; [lia|].
       destruct (IH resp t' rest' Hr ltac:(lia)) as (ts & c & E & L).
@@ -62,45 +62,18 @@ Proof.
       * destruct rest as [|t' rest']; cbn [List.length] in Hn; [lia|].
         destruct (IH resp t' rest' Hr ltac:(lia)) as (ts & c & E & L).
         exists (t :: ts), c. cbn [attempts]. rewrite E. split; [reflexivity|cbn [List.length]; lia].
+    + cbn [filter fault_advances fault_sent List.length] in *.
+      destruct (IH resp t rest Hr Hn) as (ts & c & E & L).
+      exists (t :: ts), c. cbn [attempts]. rewrite E. split; [reflexivity|cbn [List.length]; lia].
 Qed.
 
-Lemma split_retried_spec fs pre x : split_retried fs = (pre, x) ->
-  forallb fault_retried pre = true /\
-  match x with Some f => fs = pre ++ f :: skipn (S (List.length pre)) fs /\ fault_retried f = false
-             | None => fs = pre end.
+(* Connection::execute_iter: a retried fault can only be a transparent re-prepare *)
+Lemma conn_retried_nadv fs : forallb fault_retried (flat_map conn_fault fs) = true ->
+  nadv (flat_map conn_fault fs) = 0%nat.
 Proof.
-  revert pre x; induction fs as [|f fs IH]; intros pre x H; cbn [split_retried] in H.
-  - injection H as <- <-. split; reflexivity.
-  - destruct (fault_retried f) eqn:Ef.
-    + destruct (split_retried fs) as [p y]. injection H as <- <-.
-      destruct (IH p y eq_refl) as [H1 H2]. split; [cbn [forallb]; rewrite Ef, H1; reflexivity|].
-      destruct y as [g|].
-      * destruct H2 as [H2 H3]. split; [|exact H3]. cbn [app List.length skipn]. f_equal. exact H2.
-      * cbn. f_equal; exact H2.
-    + injection H as <- <-. split; [reflexivity|]. split; [reflexivity|exact Ef].
-Qed.
-
-Lemma attempts_fails : forall pre f post e resp t rest,
-  forallb fault_retried pre = true -> (nadv pre <= List.length rest)%nat ->
-  fault_fails f = Some e ->
-  exists ts, attempts (pre ++ f :: post) resp t rest = (ts, FFailed e).
-Proof.
-  induction pre as [|g pre IH]; intros f post e resp t rest Hr Hn Hf.
-  - cbn [app]. destruct f as [|e' d|]; cbn [fault_fails] in Hf; try discriminate.
-    + destruct d; try discriminate. injection Hf as ->. exists [t]. reflexivity.
-    + injection Hf as <-. exists [t]. reflexivity.
-  - cbn [forallb] in Hr. apply andb_true_iff in Hr as [Hg Hr]. unfold nadv in *.
-    destruct g as [|e' d|]; cbn [fault_retried] in Hg; try discriminate.
-    + cbn [filter fault_advances List.length] in Hn.
-      destruct rest as [|t' rest']; cbn [List.length] in Hn; [lia|].
-      destruct (IH f post e resp t' rest' Hr ltac:(lia) Hf) as [ts E].
-      exists ts. cbn [app attempts]. exact E.
-    + destruct d; try discriminate; cbn [filter fault_advances List.length] in Hn.
-      * destruct (IH f post e resp t rest Hr Hn Hf) as [ts E].
-        exists (t :: ts). cbn [app attempts]. rewrite E. reflexivity.
-      * destruct rest as [|t' rest']; cbn [List.length] in Hn; [lia|].
-        destruct (IH f post e resp t' rest' Hr ltac:(lia) Hf) as [ts E].
-        exists (t :: ts). cbn [app attempts]. rewrite E. reflexivity.
+  unfold nadv. induction fs as [|f fs IH]; cbn [flat_map]; [reflexivity|].
+  destruct f as [|e d| |]; cbn [conn_fault app forallb fault_retried filter fault_advances];
+    try discriminate; auto.
 Qed.
 
 Lemma eff_plan_length stable base : nodupb base = true -> (0 < List.length base)%nat ->
@@ -122,23 +95,7 @@ Proof.
     apply Nat.ltb_lt in H3.
     destruct (eff_plan_length stable (ps_plan ps) H2 ltac:(lia)) as (t & rest & -> & L).
     apply attempts_retried; [exact H1|unfold nadv; lia].
-  - destruct (flat_map conn_fault (ps_faults ps)); [|discriminate].
-    exists [0], 0. split; reflexivity.
-Qed.
-
-Lemma fetch_fails m stable ps e : page_fails m ps = Some e ->
-  exists ts, fetch_one m stable ps = (ts, FFailed e).
-Proof.
-  destruct m; cbn [page_fails fetch_one]; intros H.
-  - destruct (split_retried (ps_faults ps)) as [pre x] eqn:Es.
-    destruct (nodupb (ps_plan ps)) eqn:Hnd; cbn [andb] in H; [|discriminate].
-    destruct (Nat.ltb _ _) eqn:Hl in H; [|discriminate]. apply Nat.ltb_lt in Hl.
-    destruct x as [f|]; [|discriminate].
-    destruct (split_retried_spec _ _ _ Es) as [Hr [Hfs _]].
-    destruct (eff_plan_length stable (ps_plan ps) Hnd ltac:(lia)) as (t & rest & -> & L).
-    rewrite Hfs. apply attempts_fails; [exact Hr|unfold nadv; lia|exact H].
-  - destruct (flat_map conn_fault (ps_faults ps)) as [|f fs]; [discriminate|].
-    apply (attempts_fails [] f fs e); [reflexivity|cbn; lia|exact H].
+  - apply attempts_retried; [exact H|]. rewrite (conn_retried_nadv _ H). cbn [List.length]. lia.
 Qed.
 
 
@@ -414,51 +371,6 @@ Qed.
 
 
 (* ===== part D ===== *)
-(* ---------- a non-retried failure on page k ---------- *)
-Lemma worker_fail m : forall rest i st stable k e,
-  fail_point m rest = Some (k, e) ->
-  items_of (snd (worker m i st stable rest)) =
-    map IRow (concat (map fst (firstn k (script_pages rest)))) ++ [IErr e] /\
-  worker_done m stable rest = true.
-Proof.
-  induction rest as [|ps rest IH]; intros i st stable k e H; [discriminate|].
-  cbn [fail_point] in H. cbn [worker worker_done].
-  destruct (page_fails m ps) as [e'|] eqn:Epf.
-  - injection H as <- <-. destruct (fetch_fails m stable ps e' Epf) as [ts Ef]. rewrite Ef.
-    cbn [snd tail_msgs firstn map concat app]. split; reflexivity.
-  - destruct (is_rows (ps_resp ps) && page_retried m ps && has_next (ps_resp ps)) eqn:Eg; [|discriminate].
-    apply andb_true_iff in Eg as [Eg Hn]. apply andb_true_iff in Eg as [Hrows Hret].
-    destruct (fail_point m rest) as [[k' e']|] eqn:Efp; [|discriminate]. injection H as <- <-.
-    destruct (fetch_retried m stable ps Hret) as (ts & c & Ef & _). rewrite Ef. cbn [snd].
-    destruct (ps_resp ps) as [rows [st'|]| |] eqn:Er; try discriminate.
-    destruct (IH (S i) st' (Some c) k' e' eq_refl) as [I1 I2].
-    destruct (worker m (S i) st' (Some c) rest) as [rq' ms]. cbn [snd] in *.
-    split; [|exact I2].
-    change (items_of (MPage rows :: ms)) with (map IRow rows ++ items_of ms). rewrite I1.
-    cbn [script_pages map firstn]. rewrite Er. cbn [resp_page fst concat]. fold (script_pages rest).
-    rewrite map_app, <- app_assoc. reflexivity.
-Qed.
-
-Theorem seq_fail m script k e : fail_point m script = Some (k, e) ->
-  obs_items (snd (seq_run m script)) = spec_error_stream (script_pages script) k e.
-Proof.
-  destruct script as [|ps rest]; [discriminate|]. cbn [fail_point]. intros H.
-  unfold seq_run, spec_error_stream. cbn [start].
-  destruct (page_fails m ps) as [e'|] eqn:Epf.
-  - injection H as <- <-. destruct (fetch_fails m None ps e' Epf) as [ts Ef]. rewrite Ef. reflexivity.
-  - destruct (is_rows (ps_resp ps) && page_retried m ps && has_next (ps_resp ps)) eqn:Eg; [|discriminate].
-    apply andb_true_iff in Eg as [Eg Hn]. apply andb_true_iff in Eg as [Hrows Hret].
-    destruct (fail_point m rest) as [[k' e']|] eqn:Efp; [|discriminate]. injection H as <- <-.
-    destruct (fetch_retried m None ps Hret) as (ts & c & Ef & _). rewrite Ef.
-    destruct (ps_resp ps) as [rows [st'|]| |] eqn:Er; try discriminate.
-    cbn [pfuture pdone].
-    destruct (worker_fail m rest 1%nat st' (Some c) k' e' Efp) as [I1 I2].
-    destruct (worker m 1 st' (Some c) rest) as [rq' ms]. cbn [snd] in *. rewrite I2.
-    cbn [snd obs_items]. fold (items_of ms). rewrite I1.
-    cbn [script_pages map firstn]. rewrite Er. cbn [resp_page fst concat]. fold (script_pages rest).
-    rewrite map_app, <- !app_assoc. reflexivity.
-Qed.
-
 (* ---------- the paging state of every request, for ANY script ---------- *)
 Lemma chain_state_spec : forall script st j,
   chain_state st script (S j) =
@@ -479,7 +391,7 @@ Lemma attempts_resp : forall fs resp t rest c r,
 Proof.
   induction fs as [|f fs IH]; intros resp t rest c r H; cbn [attempts snd] in H.
   - injection H as _ <-. reflexivity.
-  - destruct f as [|e d|].
+  - destruct f as [|e d| |].
     + destruct rest as [|t' rest']; [discriminate|]. eapply IH; exact H.
     + destruct d.
       * destruct (attempts fs resp t rest) as [l x] eqn:E. cbn [snd] in H.
@@ -490,6 +402,8 @@ Proof.
       * discriminate.
       * discriminate.
     + discriminate.
+    + destruct (attempts fs resp t rest) as [l x] eqn:E. cbn [snd] in H.
+      eapply (IH resp t rest c r). rewrite E. exact H.
 Qed.
 
 Lemma fetch_resp m stable ps c r : snd (fetch_one m stable ps) = FCompleted c r -> r = ps_resp ps.
@@ -981,22 +895,6 @@ Proof.
   rewrite (list_eqb_refl item_eqb item_eqb_eq), (list_eqb_refl key_eqb key_eqb_eq). reflexivity.
 Qed.
 
-(* what an accepted full read means for the property *)
-Theorem accept_full_property m script oi ok : accept_full m script oi ok = true ->
-  (good_script m script = true ->
-     oi = spec_stream (script_pages script) /\ ok = spec_requests m script) /\
-  (forall k e, fail_point m script = Some (k, e) ->
-     oi = spec_error_stream (script_pages script) k e) /\
-  (forall i st, In (i, st) ok -> st = spec_state (script_pages script) i).
-Proof.
-  intros H. apply accept_full_sound in H as [H1 H2]. repeat split.
-  - destruct (seq_good m script H) as (rq & E & _). rewrite H1, E. reflexivity.
-  - destruct (seq_good m script H) as (rq & E & K). rewrite H2, E. exact K.
-  - intros k e Hf. rewrite H1. apply seq_fail; exact Hf.
-  - intros i st Hin. rewrite H2 in Hin. apply in_map_iff in Hin as (r & E & Hin).
-    apply seq_states in Hin as [Hs _]. unfold req_key in E. injection E as <- <-. exact Hs.
-Qed.
-
 Theorem accept_drop_sound m script n oi ok : accept_drop m script n oi ok = true ->
   (forall rq0 rows p, start m script = (rq0, SPager rows p) ->
      exists r, oi ++ r = map IRow rows ++ items_of (snd (pfuture m p)) ++ [IEnd]) /\
@@ -1026,19 +924,6 @@ Proof.
     apply seq_states in Hq as [Hs _]. unfold req_key in E. injection E as <- <-. exact Hs.
 Qed.
 
-Theorem accept_drop_property m script n oi ok :
-  good_script m script = true -> accept_drop m script n oi ok = true ->
-  (exists r, oi ++ r = spec_stream (script_pages script)) /\
-  (exists r, ok ++ r = spec_requests m script).
-Proof.
-  intros Hg H. destruct (accept_drop_sound _ _ _ _ _ H) as (Ho & (r2 & Hk) & _).
-  destruct (seq_good m script Hg) as (rq & E & K). split.
-  - unfold seq_run in E. destruct (start m script) as [rq0 [|e|rows p]] eqn:Hst; try discriminate.
-    destruct (Ho rq0 rows p eq_refl) as [r Hr]. exists r. rewrite Hr.
-    destruct (pfuture m p) as [rq' ms]. cbn [snd]. unfold items_of.
-    destruct (pdone m p); [|discriminate]. injection E as _ <-. reflexivity.
-  - exists r2. rewrite Hk, E. exact K.
-Qed.
 
 (* ===== part G ===== *)
 (* ---------- the statements of Props/C07.v ---------- *)
@@ -1105,37 +990,6 @@ Proof.
   apply (prefix_NoDup _ r). rewrite E. apply NoDup_spec_stream; exact Hnd.
 Qed.
 
-Lemma fail_start m script k e : fail_point m script = Some (k, e) ->
-  match k with
-  | O => exists rq0, start m script = (rq0, SFail e)
-  | S _ => exists s0, pager_init m script = Some s0
-  end.
-Proof.
-  destruct script as [|ps rest]; [discriminate|]. cbn [fail_point]. unfold pager_init. cbn [start].
-  destruct (page_fails m ps) as [e'|] eqn:Epf.
-  - intros H; injection H as <- <-. destruct (fetch_fails m None ps e' Epf) as [ts Ef]. rewrite Ef. eauto.
-  - destruct (is_rows (ps_resp ps) && page_retried m ps && has_next (ps_resp ps)) eqn:Eg; [|discriminate].
-    apply andb_true_iff in Eg as [Eg Hn]. apply andb_true_iff in Eg as [Hrows Hret].
-    destruct (fail_point m rest) as [[k' e']|]; [|discriminate]. intros H; injection H as <- <-.
-    destruct (fetch_retried m None ps Hret) as (ts & c & Ef & _). rewrite Ef.
-    destruct (ps_resp ps) as [rows [st'|]| |]; try discriminate. eauto.
-Qed.
-
-Theorem error_thm m script k e : fail_point m script = Some (k, e) ->
-  match k with
-  | O => exists rq0, start m script = (rq0, SFail e)
-  | S _ => exists s0, pager_init m script = Some s0 /\
-           forall ls s, run s0 ls = Some s -> s_cons s = CEnded ->
-             s_out s = spec_error_stream (script_pages script) k e
-  end.
-Proof.
-  intros Hf. pose proof (fail_start _ _ _ _ Hf) as Hs. destruct k as [|k']; [exact Hs|].
-  destruct Hs as [s0 H0]. exists s0. split; [exact H0|].
-  destruct (pager_init_start _ _ _ H0) as (rq0 & rows & p & Hst & ->).
-  intros ls s Hr He. destruct (sched_full _ _ _ _ _ _ _ Hst Hr He) as [H1 _].
-  pose proof (seq_fail _ _ _ _ Hf) as Hq. rewrite <- H1 in Hq. exact Hq.
-Qed.
-
 Theorem states_thm m script :
   (forall r, In r (fst (start m script)) -> rq_page r = 0%nat /\ rq_state r = None) /\
   (forall s0 ls s r, pager_init m script = Some s0 -> run s0 ls = Some s -> In r (s_reqs s) ->
@@ -1195,115 +1049,6 @@ Proof.
   - intros rq0 e Hst. apply accept_full_complete_fail; exact Hst.
 Qed.
 
-Theorem accept_drop_thm m script n oi ok : accept_drop m script n oi ok = true ->
-  (forall i st, In (i, st) ok -> st = spec_state (script_pages script) i) /\
-  (good_script m script = true ->
-     (exists r, oi ++ r = spec_stream (script_pages script)) /\
-     (exists r, ok ++ r = spec_requests m script)).
-Proof.
-  intros H. split.
-  - exact (proj2 (proj2 (accept_drop_sound m script n oi ok H))).
-  - intros Hg. exact (accept_drop_property m script n oi ok Hg H).
-Qed.
-
-(* ===== part H ===== *)
-(* ---------- IgnoreWriteError on page k ---------- *)
-Lemma attempts_ignored : forall pre f post resp t rest,
-  forallb fault_retried pre = true -> (nadv pre <= List.length rest)%nat ->
-  fault_ignored f = true ->
-  exists ts c, attempts (pre ++ f :: post) resp t rest = (ts, FIgnored c).
-Proof.
-  induction pre as [|g pre IH]; intros f post resp t rest Hr Hn Hf.
-  - cbn [app]. destruct f as [|e' d|]; cbn [fault_ignored] in Hf; try discriminate.
-    destruct d; try discriminate. exists [t], t. reflexivity.
-  - cbn [forallb] in Hr. apply andb_true_iff in Hr as [Hg Hr]. unfold nadv in *.
-    destruct g as [|e' d|]; cbn [fault_retried] in Hg; try discriminate.
-    + cbn [filter fault_advances List.length] in Hn.
-      destruct rest as [|t' rest']; cbn [List.length] in Hn; [lia|].
-      destruct (IH f post resp t' rest' Hr ltac:(lia) Hf) as (ts & c & E).
-      exists ts, c. cbn [app attempts]. exact E.
-    + destruct d; try discriminate; cbn [filter fault_advances List.length] in Hn.
-      * destruct (IH f post resp t rest Hr Hn Hf) as (ts & c & E).
-        exists (t :: ts), c. cbn [app attempts]. rewrite E. reflexivity.
-      * destruct rest as [|t' rest']; cbn [List.length] in Hn; [lia|].
-        destruct (IH f post resp t' rest' Hr ltac:(lia) Hf) as (ts & c & E).
-        exists (t :: ts), c. cbn [app attempts]. rewrite E. reflexivity.
-Qed.
-
-Lemma fetch_ignored m stable ps : page_ignored m ps = true ->
-  exists ts c, fetch_one m stable ps = (ts, FIgnored c) /\ m = MSession.
-Proof.
-  destruct m; cbn [page_ignored fetch_one]; intros H; [|discriminate].
-  destruct (split_retried (ps_faults ps)) as [pre x] eqn:Es.
-  apply andb_true_iff in H as [H Hx]. apply andb_true_iff in H as [Hnd Hl].
-  apply Nat.ltb_lt in Hl. destruct x as [f|]; [|discriminate].
-  destruct (split_retried_spec _ _ _ Es) as [Hr [Hfs _]].
-  destruct (eff_plan_length stable (ps_plan ps) Hnd ltac:(lia)) as (t & rest & -> & L).
-  rewrite Hfs.
-  destruct (attempts_ignored pre f (skipn (S (List.length pre)) (ps_faults ps)) (ps_resp ps) t rest Hr
-              ltac:(unfold nadv; lia) Hx) as (ts & c & E).
-  exists ts, c. split; [exact E|reflexivity].
-Qed.
-
-Lemma worker_ignored m : forall rest i st stable k,
-  ignore_point m rest = Some k ->
-  items_of (snd (worker m i st stable rest)) =
-    map IRow (concat (map fst (firstn k (script_pages rest)))) /\
-  worker_done m stable rest = true.
-Proof.
-  induction rest as [|ps rest IH]; intros i st stable k H; [discriminate|].
-  cbn [ignore_point] in H. cbn [worker worker_done].
-  destruct (page_ignored m ps) eqn:Epi.
-  - injection H as <-. destruct (fetch_ignored m stable ps Epi) as (ts & c & Ef & _). rewrite Ef.
-    cbn [snd tail_msgs firstn map concat]. split; reflexivity.
-  - destruct (is_rows (ps_resp ps) && page_retried m ps && has_next (ps_resp ps)) eqn:Eg; [|discriminate].
-    apply andb_true_iff in Eg as [Eg Hn]. apply andb_true_iff in Eg as [Hrows Hret].
-    destruct (ignore_point m rest) as [k'|] eqn:Eip; [|discriminate]. injection H as <-.
-    destruct (fetch_retried m stable ps Hret) as (ts & c & Ef & _). rewrite Ef. cbn [snd].
-    destruct (ps_resp ps) as [rows [st'|]| |] eqn:Er; try discriminate.
-    destruct (IH (S i) st' (Some c) k' eq_refl) as [I1 I2].
-    destruct (worker m (S i) st' (Some c) rest) as [rq' ms]. cbn [snd] in *.
-    split; [|exact I2].
-    change (items_of (MPage rows :: ms)) with (map IRow rows ++ items_of ms). rewrite I1.
-    cbn [script_pages map firstn]. rewrite Er. cbn [resp_page fst concat]. fold (script_pages rest).
-    rewrite map_app. reflexivity.
-Qed.
-
-Theorem seq_ignored m script k : ignore_point m script = Some k ->
-  snd (seq_run m script) = OStream (spec_truncated_stream (script_pages script) k).
-Proof.
-  destruct script as [|ps rest]; [discriminate|]. cbn [ignore_point]. intros H.
-  unfold seq_run, spec_truncated_stream. cbn [start].
-  destruct (page_ignored m ps) eqn:Epi.
-  - injection H as <-. destruct (fetch_ignored m None ps Epi) as (ts & c & Ef & ->). rewrite Ef.
-    reflexivity.
-  - destruct (is_rows (ps_resp ps) && page_retried m ps && has_next (ps_resp ps)) eqn:Eg; [|discriminate].
-    apply andb_true_iff in Eg as [Eg Hn]. apply andb_true_iff in Eg as [Hrows Hret].
-    destruct (ignore_point m rest) as [k'|] eqn:Eip; [|discriminate]. injection H as <-.
-    destruct (fetch_retried m None ps Hret) as (ts & c & Ef & _). rewrite Ef.
-    destruct (ps_resp ps) as [rows [st'|]| |] eqn:Er; try discriminate.
-    cbn [pfuture pdone].
-    destruct (worker_ignored m rest 1%nat st' (Some c) k' Eip) as [I1 I2].
-    destruct (worker m 1 st' (Some c) rest) as [rq' ms]. cbn [snd] in *. rewrite I2.
-    cbn [snd]. fold (items_of ms). rewrite I1.
-    cbn [script_pages map firstn]. rewrite Er. cbn [resp_page fst concat]. fold (script_pages rest).
-    rewrite map_app, <- !app_assoc. reflexivity.
-Qed.
-
-Theorem ignored_thm m script k : ignore_point m script = Some k ->
-  exists s0, pager_init m script = Some s0 /\
-  forall ls s, run s0 ls = Some s -> s_cons s = CEnded ->
-    s_out s = spec_truncated_stream (script_pages script) k.
-Proof.
-  intros Hi. pose proof (seq_ignored _ _ _ Hi) as Hq.
-  unfold pager_init. unfold seq_run in Hq.
-  destruct (start m script) as [rq0 [|e|rows p]] eqn:Hst.
-  - discriminate.
-  - discriminate.
-  - eexists. split; [reflexivity|]. intros ls s Hr He.
-    destruct (sched_full _ _ _ _ _ _ _ Hst Hr He) as [H1 _].
-    unfold seq_run in H1. rewrite Hst in H1. rewrite Hq in H1. injection H1 as ->. reflexivity.
-Qed.
 
 (* ===== part I ===== *)
 (* ---------- completeness of the early-drop acceptor ---------- *)
